@@ -199,6 +199,9 @@ func vh_udp_write() {
 	want := append([]byte{}, p...)
 	e.id.LocalPort = vnU16("lport")
 	e.dstPort = vnU16("dport")
+	// the send buffer size is not part of the contract: whatever it is, a datagram goes out
+	// whole or not at all
+	e.sndBufSize = int(vnU8("sndbuf"))
 	got, _, err := e.Write(tcpip.SlicePayload(p), tcpip.WriteOptions{})
 	vassert(err == nil && int(got) == n, "the write reports every byte as sent")
 	vassert(len(u.net.Sent) == 1, "a datagram written is emitted as exactly one packet")
